@@ -44,6 +44,19 @@ def check(run, focus=FOCUS, modules=MODULES, suffix=SUFFIX):
     except Exception as e:       # noqa
         run.violation("broken-correspondence", {"kind": "translator", "arch": "registers"}, f"the register obligations could not be generated: {e}", found_input=False)
         return
+    # the literal-operand arms of compile_instruction themselves, translated from their text for every command group of today's table and
+    # proved equal to the hand model the obligations are stated about (Generated/A64Static.lean)
+    import os
+    import statictrans
+    static_msg = None
+    modules = list(modules)
+    try:
+        st = statictrans.translate_all()
+        statictrans.emit_lean(st, os.path.join(common.GEN, "A64Static.lean"))
+        modules.append("DynasmVerif.Generated.A64Static")
+        run.coverage["trusted_base"] += [f"lib/statictrans.py (text of 13 literal-operand arms + static_range_check -> Lean, {len(st)} command groups proved equal to Model/A64Enc)"]
+    except statictrans.Untranslatable as ex:
+        static_msg = f"the literal-operand arms of the aarch64 compiler can no longer be translated (lib/statictrans.py): {ex}"
     # an obligation may be left out only for the structural reason known on the pinned tree (an operand spread over two run-time words: tbz/tbnz);
     # one that can no longer be translated or instantiated is a theorem that is no longer stated
     unstated = []
@@ -86,6 +99,8 @@ def check(run, focus=FOCUS, modules=MODULES, suffix=SUFFIX):
     run.coverage["traces_validated_against_impl"] = stats["literal"] + stats["runtime"]
     run.coverage["distribution"] = stats
     run.coverage["samples"] = [o["line"] for o in gen["obligations"][:3] if "line" in o]
+    if static_msg:
+        run.violation("broken-correspondence", {"kind": "static-arm-translation"}, static_msg, found_input=(len(run.violations) + len(run.known_hit)) > found_before)
     if not proofs_ok and hasattr(run, "broken_build"):
         found = (len(run.violations) + len(run.known_hit)) > found_before
         run.violation("broken-obligation", {"kind": "lean-build", "first": run.broken_build["first_error"][:200]}, run.broken_build["first_error"], run.broken_build, found_input=found)
